@@ -40,9 +40,8 @@ def unit_rows(res, client, estimands):
 
 
 def feed_value(fc, estimand):
-    if estimand == "margin":
-        return fc["margin"]
-    return fc[estimand]
+    v = fc["margin"] if estimand == "margin" else fc[estimand]
+    return 0 if ref.isnan(v) else v  # a count that has not arrived (null cell) carries no votes
 
 
 def agg_tables(res):
@@ -97,12 +96,24 @@ def check_conservation(el, feed, call, res, client):
                                                        and len(cat) > len(ALLOWED_PREFIX))):
             bad_cat.append((f, cat))
         fc = fcs.get(f)
+        has_null = False
         for e in estimands:
             want = feed_value(fc, e) if fc is not None else 0
             got = u.get(f"results_{e}")
+            raw = (fc["margin"] if e == "margin" else fc[e]) if fc is not None else 0
+            if ref.isnan(raw):
+                has_null = True
+                if not (ref.isnan(got) or got == 0):
+                    bad_res.append((f, e, got, "null cell"))
+                continue
             if not ref.close(got, want, rel=0, abs_=0):
                 bad_res.append((f, e, got, want))
         pct = fc["pct"] if fc is not None else 0
+        if has_null and policy == "zero":
+            pct = 0  # the zero policy treats a row with a missing requested count as not reporting at all
+            cnt["null_cell_units"] = cnt.get("null_cell_units", 0) + 1
+        elif has_null:
+            cnt["null_cell_units"] = cnt.get("null_cell_units", 0) + 1
         want_rep = 1 if (cat == "expected" and pct >= thr) else 0
         if cat == "expected" or cat is None or cat == "unexpected" or str(cat).startswith(ALLOWED_PREFIX):
             if u.get("reporting") != want_rep:
